@@ -265,8 +265,11 @@ class _CallPatchARM64(_CallPatchImpl):
 
         # For small values, let the assembler pick the best instruction to
         # load the immediate.
-        if -0xFFFF <= value <= 0xFFFF:
+        if 0 <= value <= 0xFFFF:
             yield f"mov {reg}, #0x{value:x}"
+            return
+        elif -0xFFFF <= value < 0:
+            yield f"mov {reg}, #{value}"
             return
 
         # TODO: This could be more optimal, particularly for negative numbers.
